@@ -27,6 +27,7 @@ pub struct Tally {
     pub max_len: u64,
     pub learned_commits: u64,
     pub contexts: u64,
+    layout_values_inside_words: u64,
 }
 
 fn kind_idx(e: &Ev) -> usize {
@@ -47,6 +48,7 @@ pub fn flush(t: &Tally, out: &mut Out) {
     out.count("histories", t.histories);
     out.count("contexts_created", t.contexts);
     out.count("commits_that_learned", t.learned_commits);
+    out.count("layout_values_typed_inside_a_word_with_the_list_on", t.layout_values_inside_words);
     for (i, n) in t.by_kind.iter().enumerate() {
         out.count(&format!("calls.{}", KIND_NAMES[i]), *n);
     }
@@ -435,6 +437,33 @@ impl Prop for C01 {
             out.distinct(fnv_str(&["c", &spec.short(), &ex.steps.to_string(), &ex.shadow]));
             if out.want_sample() && _h % 97 == 3 {
                 out.sample(trace_json(&spec, &files, &evs[..evs.len().min(24)]));
+            }
+        }
+
+        // ---- (c2) every value of the layout file inside a word, candidate list on: consonant, the value, consonant,
+        // backspace (a character that is special to the dictionary search - a back-slash, a bracket, a caret - or that is
+        // several bytes long must not break the list that is built from the composed text)
+        for (li, lay) in [Lay::Probhat, Lay::Verif].into_iter().enumerate() {
+            let Ok(lo) = LayoutOracle::load(lay) else { continue };
+            let (Some(k1), Some(k2)) = (lo.key_for_value("ক"), lo.key_for_value("খ")) else { continue };
+            let mut vals: Vec<&String> = lo.map.values().filter(|v| !v.is_empty()).collect();
+            vals.sort();
+            vals.dedup();
+            for (vi, v) in vals.iter().enumerate() {
+                if !env.mine(vi + li * 7 + 3) {
+                    continue;
+                }
+                let Some(kv) = lo.key_for_value(v) else { continue };
+                for opts in [O_FSUGG | O_ENG, O_FSUGG | O_SQ | O_TKAR | O_VOWEL | O_ANSI] {
+                    let spec = CfgSpec::new(lay, opts);
+                    let Ok(mut ex) = Exec::new(spec, &root) else { continue };
+                    t.contexts += 1;
+                    let evs = vec![Ev::Key(k1.0, k1.1, 0xFF), Ev::Key(kv.0, kv.1, 0xFF), Ev::Key(k2.0, k2.1, 0xFF), Ev::Key(kv.0, kv.1, 0xFF), Ev::Bs, Ev::Commit(usize::MAX)];
+                    out.begin_case(|| json!({"cfg": spec.to_json(), "events": evs_to_json(&evs)}));
+                    run_events(&mut ex, &nofiles, &evs, BUDGET_MS, out, &mut t);
+                    out.distinct(fnv_str(&["c2", lay.name(), v, &opts.to_string()]));
+                    t.layout_values_inside_words += 1;
+                }
             }
         }
 
